@@ -332,6 +332,19 @@ func init() {
 		Quick:    4000,
 		Thorough: 200000,
 		Gen: func(r *RNG, tier string, n int, emit func(op int, toks ...Tok)) {
+			// frames longer than 65535 bytes, and frames cut into more than 256 fragments
+			for k, cfg := range [][3]int{{0, 1200, 70000}, {1, 1200, 70000}, {0, 65535, 65536 + 90}, {1, 16, 4 * 300}, {0, 7, 4 * 300}} {
+				c := r.Fork(uint64(5000 + k))
+				f := genVp9Frame(c)
+				f.bytes = append(f.bytes, c.Bytes(cfg[2])...)
+				f2 := genVp9Frame(c)
+				calls := TList{TList{TI(int64(cfg[1])), TBytes(f.bytes)}, TList{TI(20), TBytes(f2.bytes)}}
+				o := runVp9History(cfg[0] == 1, 0x7FFF, calls, []vp9Frame{f, f2})
+				if o.Fail != "" {
+					pendingFailures = append(pendingFailures, pendingFailure{CaseLine(1201, TI(int64(cfg[0])), TI(0x7FFF), calls), o.Fail, ""})
+				}
+				emit(1201, TI(int64(cfg[0])), TI(0x7FFF), calls)
+			}
 			for i := 0; i < n; i++ {
 				c := r.Fork(uint64(i))
 				switch c.Intn(4) {
